@@ -61,7 +61,7 @@ class Run:
 
     def __init__(self, c, variant='api', pool='plain', seed=0, ignore_contract=False, metas=True,
                  monitor=False, sc=None, names=None, rename=None, reimport=False, copy_into=False,
-                 manual_execute=False, shadow=False, epoch=0):
+                 manual_execute=False, shadow=False, epoch=0, device=False):
         self.c = c
         self.shadow = None
         self.manual_execute = manual_execute
@@ -72,6 +72,7 @@ class Run:
         self.listener = self.listener2 = self.mon = None
         self.opt = {'ignore': bool(ignore_contract), 'metas': bool(metas)}
         self.returned = []
+        self.evcache = {}
         self.probes = Probes()
         try:
             # building the statechart under test goes through the public API too: a call that fails or does not
@@ -103,6 +104,9 @@ class Run:
         self.probes = Probes()
         ctx = {'p': self.probes.p, 'g': self.probes.g, 'c': self.probes.c, 'tick': self.probes.tick,
                'dg': self.probes.dg, 'dc': self.probes.dc, 'NAMES': tuple(names[i] for i in sorted(names))}
+        if device:      # an object of the environment that can be neither copied deeply nor pickled (a device handle)
+            import threading
+            ctx['dev'] = threading.Lock()
         self.base = epoch       # the run starts at a large absolute time (float resolution, tolerances)
         if epoch:
             from sismic.clock import SimulatedClock
@@ -161,7 +165,7 @@ class Run:
         it = self.interp
         if it is None:
             return {'conf': [], 'final': False, 'time': 0, 'x': 0}
-        extra = len(set(it.context) - {'p', 'g', 'c', 'tick', 'x', 'box', 'lst', 'dg', 'dc', 'NAMES'})     # nothing else may appear
+        extra = len(set(it.context) - {'p', 'g', 'c', 'tick', 'x', 'box', 'lst', 'dg', 'dc', 'NAMES', 'dev'})     # nothing else may appear
         return {'conf': sorted(self.ids[n] for n in it.configuration if n not in self.host_only), 'final': bool(it.final),
                 'time': it.time - self.base, 'x': it.context.get('x', -1) + 1000 * extra}
 
@@ -274,7 +278,12 @@ class Run:
                     kw['delay'] = o['dl']        # sometimes an explicit delay=0
                 if o['par']:
                     kw['v'] = o['par']
-                it.queue(Event(realize.ev_name(o['ev']), **kw))
+                # the very same Event object may be queued more than once (every other time it is re-used)
+                key = (o['ev'], tuple(sorted(kw.items())))
+                evo = self.evcache.get(key) if len(self.returned) % 2 == 0 else None
+                if evo is None:
+                    evo = self.evcache[key] = Event(realize.ev_name(o['ev']), **kw)
+                it.queue(evo)
             elif op == 'adv':
                 it.clock.time += h.get('d', 0)
             elif op == 'exec':
